@@ -17,7 +17,8 @@ from geneticengine.representations.api import (
     Representation,
 )
 from geneticengine.representations.tree.initializations import apply_constructor
-from geneticengine.solutions.tree import TreeNode
+from geneticengine.representations.tree.utils import relabel_nodes_of_trees
+from geneticengine.solutions.tree import GengyList, TreeNode
 from geneticengine.grammar.utils import (
     get_arguments,
     get_generic_parameter,
@@ -108,7 +109,7 @@ def create_tree_using_stacks(g: Grammar, r: ListWrapper, failures_limit=100):
             elif is_generic_list(target_type):
                 inner_type = get_generic_parameters(target_type)[0]
                 length = r.randint(0, len(stacks[inner_type]))
-                ret = stacks[inner_type][:length]
+                ret = GengyList(inner_type, stacks[inner_type][:length])
                 stacks[inner_type] = stacks[inner_type][length:]
                 add_to_stacks(stacks, target_type, ret)
             elif is_union(target_type):
@@ -135,6 +136,9 @@ def create_tree_using_stacks(g: Grammar, r: ListWrapper, failures_limit=100):
                         raise IndexError()
                     args.append(arg)
                 v = apply_constructor(target_type, args)
+                if type(v) is list:
+                    # (a refined list type is instantiated directly: keep it a list that can carry metadata)
+                    v = GengyList(get_generic_parameter(get_generic_parameter(target_type)), v)
                 add_to_stacks(stacks, target_type, v)
         except IndexError:
             failures += 1
@@ -166,7 +170,9 @@ class StackBasedGGGPRepresentation(
         return Genotype(dna=[random.randint(0, sys.maxsize) for _ in range(self.gene_length)])
 
     def genotype_to_phenotype(self, genotype: Genotype) -> TreeNode:
-        return create_tree_using_stacks(self.grammar, ListWrapper(genotype.dna), failures_limit=self.failures_limit)
+        tree = create_tree_using_stacks(self.grammar, ListWrapper(genotype.dna), failures_limit=self.failures_limit)
+        # programs of this representation carry the size and depth metadata (gengy_nodes, ...) too
+        return relabel_nodes_of_trees(tree, self.grammar)
 
     def mutate(self, random: RandomSource, genotype: Genotype, **kwargs) -> Genotype:
         rindex = random.randint(0, self.gene_length - 1)
